@@ -205,4 +205,21 @@ CHECKS = {
         quick=[R("^(TestFixed|TestCanary.*)$", 1, 1, 900), R("^TestCrashPoints$", 4, 8, 900, shrinktime="60s")],
         thorough=[R("^(TestFixed|TestCanary.*)$", 1, 1, 900), R("^TestCrashPoints$", 40, 15, 3400, shrinktime="120s")],
     ),
+    "C08": dict(
+        pkg="./props/c08", bins=["./cmd/simcore"], level="exploration",
+        rule=("whole core against the simulated world; rapid-generated hook sets (1-8 probe calls; trigger = any moment of the creation, of a legal "
+              "walk of 1-5 transitions, or of the teardown; weights -3..3 with duplicates; await = trigger, a later weight of the same moment, a "
+              "later moment of the same or a later transition, or a point that is never reached) over the walk, then a forced destroy. Probes "
+              "of one (moment, weight) are held until all of them have started (a sequential implementation trips the 6 s gate); calls awaited "
+              "later take 120 ms. Oracle on the joined log (probe start/end reports, the core's transition-step events, executor commands): "
+              "moments in documented order, each call started once per occurrence of its trigger moment and never before it, ascending "
+              "weights, next weight only after the awaited calls of the previous one returned, nothing beyond an await point (later hooks, end "
+              "of the moment, task commands) before the awaited call returned, every started call returns once, none left after teardown "
+              "(goroutine dump). ParseTriggerExpression gets a round-trip property. Non-trivial: two weights in one moment or an await != trigger."),
+        assumptions=["hook tasks (as opposed to calls) are exercised by the C09 check; relative order of a call and a hook task of one weight is not claimed",
+                     "all hooks succeed in this check"],
+        quick=[R("^(TestFixed|TestTriggerExpressions)$", 2000, 1, 600), R("^TestHooks$", 12, 10, 900, shrinktime="90s")],
+        thorough=[R("^(TestFixed|TestTriggerExpressions)$", 50000, 1, 600), R("^TestHooks$", 250, 15, 3400, shrinktime="180s")],
+        floors={"deferred-await": ("TestHooks", 0.3), "two-weights-in-a-moment": ("TestHooks", 0.2)},
+    ),
 }
